@@ -61,7 +61,8 @@ RULE = ('psd: every shape (m,n) with 1<=m,n<=S (S=8 quick, 12 thorough; all pari
         'into bandlimited_rms; methods on Interferogram data of every dtype / layout; peak: '
         'on-grid cosine of every admissible integer frequency pair; bands: edges drawn strictly between distinct sample '
         'radii, plus an edge exactly on a sample radius, as frequencies, as periods, one edge of each kind, positionally, '
-        'and no edge at all, float32 r/psd, under both NumPy configurations; 1-D r/psd of 1..14 (40) samples on |f|, signed '
+        'and no edge at all, float32 r/psd, under both NumPy configurations; degenerate bands in every band case: inverted (flow > fhigh), '
+        'entirely above r.max(), negative lower edge, infinite / oversized upper edge, edges as np.float64 / 0-d arrays (value and Lean model); 1-D r/psd of 1..14 (40) samples on |f|, signed '
         'and one-sided axes; methods: dense maps 3..20 and apertured maps (mask -> fill(0)) of 26..48 samples, float32/int32 '
         'data, band as frequencies / periods / one of each / none, TIS for scalar, 0-d, 1-D, 2-D and default angles; synth: '
         'abc_psd / ab_psd / a user psd_fcn x sizes 3..40 x masks (none, disc, random boolean, 0-1 int, 0.-1. float, single '
@@ -69,7 +70,12 @@ RULE = ('psd: every shape (m,n) with 1<=m,n<=S (S=8 quick, 12 thorough; all pari
         'psd / bandlimited_rms / total_integrated_scatter interleaved with in-place mutators (remove_piston/tiptilt/power, '
         'fill, mask, spike_clip, data *= k, data[0,0] += c) and rebinding ones (crop, pad, filter, data = ..., latcal, '
         'strip_latcal): all query-mutator-query triples (thorough: two mutators) + random interleavings to length 14, each '
-        'query compared with the same call on a fresh object built from a copy of the current data. A case is non-trivial '
+        'query compared with the same call on a fresh object built from a copy of the current data; process_history: the synthesis routines '
+        '(render_synthetic_surface on either axis length / with a mask and ab_psd, Interferogram.render_from_psd) interleaved with psd / '
+        'Interferogram.psd / bandlimited_rms / total_integrated_scatter / render_from_psd().psd() on the SAME (sample count, bit-identical dx) in '
+        'this process: all [synth, query] and [query, synth, query], all synth pairs, random interleavings to length 9; every query must satisfy the '
+        'state-free predicates (axes of the sampling, Parseval, zero-frequency sample, band values on the independent frequency grid) and repeat its '
+        'first (cold-state) value. A case is non-trivial '
         'unless the map is 1x1, all zero, or no usable window is due; distinct = distinct case dicts')
 ASSUMPTIONS = [
     'scipy.fft.fft2 computes the DFT sum; fftshift/ifftshift/fftfreq are the index maps of Model.C13 (the maps '
@@ -672,6 +678,14 @@ def pred_band(case):
         per_hi = _brms(itf, cfg, r, p, wlhigh=1 / b)     # fhigh defaults to r.max()
         b_up = _brms(itf, cfg, r, p, flow=b)
         up_c = _brms(itf, cfg, r, p, fhigh=c)            # flow defaults to 0
+        # degenerate bands: inverted, entirely above every sample radius, edges beyond the data on either side, edges handed over as
+        # NumPy scalars / 0-d arrays
+        inv = _brms(itf, cfg, r, p, flow=c, fhigh=a) if a < c else 0.0
+        beyond = _brms(itf, cfg, r, p, flow=2 * rmax + 1, fhigh=3 * rmax + 2)
+        neg_lo = _brms(itf, cfg, r, p, flow=-1.0 - rmax, fhigh=c)
+        big_hi = _brms(itf, cfg, r, p, flow=b, fhigh=float('inf'))
+        neg_full = _brms(itf, cfg, r, p, flow=-3.5, fhigh=7 * rmax + 3)
+        np_edges = _brms(itf, cfg, r, p, flow=np.float64(a), fhigh=np.array(c))
         if on is not None:
             a2 = 0.0
             c2 = 2 * rmax + 1
@@ -684,7 +698,7 @@ def pred_band(case):
     if not (np.array_equal(r, r0) and np.array_equal(p, p0)):
         out.append(('brms_pure', 'bandlimited_rms modified the r / psd arrays of its caller in place'))
         r, p = r0, p0
-    vals = [full, full_default, ac, ab, bc, wide, pos, mix_hi, per_lo, lo_c, per_hi, b_up, up_c]
+    vals = [full, full_default, ac, ab, bc, wide, pos, mix_hi, per_lo, lo_c, per_hi, b_up, up_c, inv, beyond, neg_lo, big_hi, neg_full]
     if not all(np.isfinite(v) for v in vals):
         return out + [('brms', f'non-finite band-limited RMS: {vals}')]
     dfy, dfx = 1 / (m * dx), 1 / (n * dx)
@@ -715,6 +729,14 @@ def pred_band(case):
     if mix_lo is not None and abs(mix_lo - ac) > tol:
         out.append(('band_mixed', f'bandlimited_rms(wlhigh=1/a, fhigh=c)^2 = {mix_lo!r} but the band [a, c] = [{a:.6g}, {c:.6g}] '
                                   f'given as two frequencies has {ac!r}'))
+    if abs(inv) > tol or abs(beyond) > tol:
+        out.append(('band_degenerate', f'a band that contains no sample must give 0: inverted band [{c:.6g}, {a:.6g}] gives {inv!r}, the band '
+                                       f'[{2 * rmax + 1:.6g}, {3 * rmax + 2:.6g}] above r.max() = {rmax:.6g} gives {beyond!r}'))
+    if abs(neg_lo - lo_c) > tol or abs(big_hi - b_up) > tol or abs(neg_full - full) > tol:
+        out.append(('band_degenerate', f'edges beyond the data: flow=-1-r.max() gives {neg_lo!r} (flow=0: {lo_c!r}); fhigh=inf gives {big_hi!r} '
+                                       f'(default fhigh: {b_up!r}); [-3.5, 7 r.max()+3] gives {neg_full!r} (full band {full!r})'))
+    if not np.isfinite(np_edges) or abs(np_edges - ac) > tol:
+        out.append(('band_degenerate', f'band edges given as np.float64 / 0-d array: {np_edges!r}, as Python floats {ac!r}'))
     if on is not None and abs(on_ac - (on_ab + on_bc - on_bb)) > tol:
         out.append(('band_incl_excl', f'edge b = {on!r} on a sample radius: brms^2[a,c] = {on_ac!r}, brms^2[a,b] + '
                                       f'brms^2[b,c] - brms^2[b,b] = {on_ab + on_bc - on_bb!r} (bands are closed at both ends)'))
@@ -1172,8 +1194,162 @@ def pred_history(case, verbose=False):
     return out
 
 
+# ------------------------------------------------------------------------------------------------
+# process-level histories: synthesis routines interleaved with the spectral routines on the SAME (sample count, dx)
+# ------------------------------------------------------------------------------------------------
+P_SYNTH = ['render', 'render_other_axis', 'render_method', 'render_masked']
+P_QUERIES = ['psd', 'ipsd', 'brms', 'tis', 'rpsd']
+
+
+def _p_setup(case):
+    m, n = case['shape']
+    size = case['dx0'] * (n - 1)
+    dx = size / (n - 1)              # exactly the spacing render_synthetic_surface(size, n) derives: bit-identical key
+    rng = np.random.default_rng(case['seed'])
+    z = rng.normal(size=(m, n)) * 3.0 + 0.3
+    return m, n, size, dx, z
+
+
+def _p_synth(itf, case, op):
+    m, n, size, dx, z = _p_setup(case)
+    st = np.random.get_state()
+    np.random.seed(case['seed'] % (2 ** 32))
+    try:
+        if op == 'render':
+            itf.render_synthetic_surface(size, n, rms=1.0, a=1e3, b=0.1, c=2.5)
+        elif op == 'render_other_axis':
+            itf.render_synthetic_surface(dx * (m - 1), m, rms=1.0, a=1e3, b=0.1, c=2.5) if m > 1 else None
+        elif op == 'render_method':
+            itf.Interferogram.render_from_psd(size, n, rms=2.0, mask=None, a=1e3, b=0.1, c=2.5)
+        elif op == 'render_masked':
+            mk = np.ones((n, n), dtype=bool)
+            mk[0, :] = False
+            itf.render_synthetic_surface(size, n, rms=0.5, mask=mk, psd_fcn=itf.ab_psd, a=1e2, b=1.5)
+        else:
+            raise ValueError(op)
+    finally:
+        np.random.set_state(st)
+
+
+def _p_query(itf, case, op):
+    """-> (observable dict, list of failures of predicates that need NO reference state)"""
+    m, n, size, dx, z = _p_setup(case)
+    bad = []
+    ex, ey = _axes_expected(m, n, dx)
+    msq = float((z ** 2).mean())
+
+    def axes_ok(x, y, what):
+        x, y = np.asarray(x, dtype=float), np.asarray(y, dtype=float)
+        if x.shape != (m, n) or y.shape != (m, n):
+            x, y = np.broadcast_to(x, (m, n)), np.broadcast_to(y, (m, n))
+        sc = 1 / dx
+        if not (np.abs(x - ex).max() <= 1e-12 * sc and np.abs(y - ey).max() <= 1e-12 * sc):
+            bad.append(f'{what}: frequency axes are not fftshift(fftfreq) of the sampling: zero-frequency sample reads fx = '
+                       f'{float(x[m // 2, n // 2])!r}, fy = {float(y[m // 2, n // 2])!r}')
+    if op == 'psd':
+        ux, uy, p = itf.psd(z.copy(), dx, np.ones((m, n)))
+        axes_ok(ux, uy, 'psd()')
+        tot = float(np.asarray(p, dtype=float).sum()) / (m * dx) / (n * dx)
+        if not abs(tot - msq) <= 1e-9 * msq:
+            bad.append(f'psd() integrates to {tot!r}, mean square {msq!r}')
+        return {'ux': np.asarray(ux), 'uy': np.asarray(uy), 'p': np.asarray(p)}, bad
+    ifg = itf.Interferogram(z.copy(), dx=dx)
+    if op == 'ipsd':
+        P = ifg.psd()
+        axes_ok(P.x, P.y, 'Interferogram.psd()')
+        r = np.asarray(P.r, dtype=float)
+        if not np.abs(r - np.hypot(ex, ey)).max() <= 1e-12 / dx:
+            bad.append(f'Interferogram.psd().r is not hypot of the frequency axes (centre sample {float(r[m // 2, n // 2])!r})')
+        return {'x': np.asarray(P.x), 'y': np.asarray(P.y), 'r': r, 'data': np.asarray(P.data)}, bad
+    if op == 'brms':
+        full = float(ifg.bandlimited_rms(flow=0))
+        part = float(ifg.bandlimited_rms(flow=0, fhigh=0.3 / dx))
+        _, _, p = itf.psd(z.copy(), dx)            # the spectrum itself does not depend on any axis helper
+        want = float(itf.bandlimited_rms(np.hypot(ex, ey), p, flow=0))
+        want2 = float(itf.bandlimited_rms(np.hypot(ex, ey), p, flow=0, fhigh=0.3 / dx))
+        if not (abs(full - want) <= 1e-9 * max(want, 1e-300) and abs(part - want2) <= 1e-9 * max(want, 1e-300)):
+            bad.append(f'Interferogram.bandlimited_rms: full band {full!r}, [0, 0.3/dx] {part!r}; on the frequency grid of the sampling '
+                       f'they are {want!r}, {want2!r}')
+        return {'full': np.asarray(full), 'part': np.asarray(part)}, bad
+    if op == 'tis':
+        return {'tis': np.asarray(ifg.total_integrated_scatter(1000 * dx / 0.3, 5.0))}, bad
+    if op == 'rpsd':
+        st = np.random.get_state()
+        np.random.seed((case['seed'] + 1) % (2 ** 32))
+        try:
+            i2 = itf.Interferogram.render_from_psd(size, n, rms=2.0, mask=None, a=1e3, b=0.1, c=2.5)
+        finally:
+            np.random.set_state(st)
+        P = i2.psd()
+        c = (n // 2, n // 2)
+        x, y, r = np.asarray(P.x), np.asarray(P.y), np.asarray(P.r)
+        if x[c] != 0 or y[c] != 0 or r[c] != 0:
+            bad.append(f'render_from_psd(...).psd(): the zero-frequency sample has fx = {float(x[c])!r}, fy = {float(y[c])!r}, r = {float(r[c])!r}')
+        return {'x': x, 'y': y, 'data': np.asarray(P.data)}, bad
+    raise ValueError(op)
+
+
+def pred_process(case, verbose=False):
+    """the spectral routines give, after ANY history of synthesis calls on the same (sample count, dx) in the same process, what
+    they give in a fresh state: (1) every query satisfies the state-free predicates (axes of the sampling, Parseval, zero-frequency
+    sample, band values on the independent frequency grid); (2) a query repeated later in the history returns what it returned the
+    first time (the first evaluation of a never-seen dx is a cold state)"""
+    itf, _ = _impl()
+    first = {}
+    with _config(case.get('config', 'numpy2')):
+        for k, op in enumerate(case['ops']):
+            try:
+                if op in P_SYNTH:
+                    _p_synth(itf, case, op)
+                    if verbose:
+                        print(f'  step {k} {op}')
+                    continue
+                got, bad = _p_query(itf, case, op)
+            except Exception as ex:
+                return [('process_history', f'step {k} ({op}) after {case["ops"][:k]} raised {type(ex).__name__}: {ex}')]
+            if verbose:
+                print(f'  step {k} {op:6s} ' + ('; '.join(bad) if bad else 'state-free predicates hold'))
+            if bad:
+                return [('process_history', f'step {k} ({op}) after {case["ops"][:k]} on shape {case["shape"]}, dx {_p_setup(case)[3]!r}: {bad[0]}')]
+            if op in first:
+                for key, a in got.items():
+                    b = first[op][key]
+                    if a.shape != b.shape or not np.allclose(a, b, rtol=1e-12, atol=0, equal_nan=True):
+                        return [('process_history', f'step {k} ({op}) after {case["ops"][:k]}: {key} differs from what the same call returned '
+                                                    f'at its first evaluation in this history (shape {case["shape"]}, dx {_p_setup(case)[3]!r})')]
+            else:
+                first[op] = got
+    return []
+
+
+def _process_cases(ctx):
+    rng = ctx.rng
+    cases = []
+    shapes = [(6, 8), (7, 7), (5, 9), (8, 4), (9, 6), (4, 5)]
+
+    def base(k, ops):
+        return {'kind': 'process', 'shape': list(shapes[k % len(shapes)]), 'dx0': float(10 ** rng.uniform(-2, 2)), 'seed': _seed(rng),
+                'config': CONFIGS[k % 2], 'ops': ops}
+    k = 0
+    for s_ in P_SYNTH:
+        for q in P_QUERIES:
+            cases.append(base(k, [s_, q]))
+            cases.append(base(k + 1, [q, s_, q]))
+            k += 2
+    for s1, s2 in itertools.product(P_SYNTH, repeat=2):
+        cases.append(base(k, ['psd', s1, s2, 'ipsd', 'psd', 'brms']))
+        k += 1
+    for _ in range(ctx.scale(30, 400)):
+        L = int(rng.integers(3, 10))
+        al = P_SYNTH + P_QUERIES
+        cases.append(base(k, [al[int(j)] for j in rng.integers(len(al), size=L)]))
+        k += 1
+    return cases
+
+
 PRED = {'psd': pred_psd, 'band': pred_band, 'band1d': pred_band1d, 'bandraw': pred_bandraw, 'methods': pred_methods,
-        'synth': lambda c: pred_synth(c)[0], 'history': pred_history}
+        'synth': lambda c: pred_synth(c)[0], 'history': pred_history,
+        'process': lambda c: pred_process(c)}
 
 
 # ------------------------------------------------------------------------------------------------
@@ -1583,6 +1759,9 @@ def _correspondence(ctx):
         bands = [(0.0, float(r.max())), (a, c), (b, c)]
         if on is not None:
             bands += [(on, on), (0.0, on)]
+        # the hypotheses of band_inverted_zero / band_beyond_samples_zero / band_defaults_full, on the real code and the model
+        rmx = float(r.max())
+        bands += [(c, a), (2 * rmx + 1, 3 * rmx + 2), (-1.0 - rmx, 7 * rmx + 3)]
         for (lo, hi) in bands:
             try:
                 got = _brms(itf, case['config'], r, p, flow=lo, fhigh=hi)
@@ -1637,6 +1816,13 @@ def _correspondence(ctx):
         nq = sum(op in H_QUERIES for op in case['ops'])
         ctx.case('history', case, nontrivial=nq >= 2, tag=f'len{min(len(case["ops"]), 6)}/{case["config"]}')
         for item, detail in pred_history(case):
+            ctx.pred_fail(item, case, detail)
+    # synthesis routines interleaved with the spectral routines on the same (sample count, dx), in this process
+    for case in _process_cases(ctx):
+        nq = sum(op in P_QUERIES for op in case['ops'])
+        ns = sum(op in P_SYNTH for op in case['ops'])
+        ctx.case('process_history', case, nontrivial=nq >= 1 and ns >= 1, tag=f'len{min(len(case["ops"]), 6)}/{case["config"]}')
+        for item, detail in pred_process(case):
             ctx.pred_fail(item, case, detail)
     for case in _method_cases(ctx):
         m, n = case['shape']
@@ -1869,6 +2055,13 @@ def _search(ctx, hints):
                          'config': 'numpy2', 'ops': [q1, mu, q2]})
         if f:
             return f
+    # 5c. process-level histories: a synthesis call, then a spectral query on the same (sample count, dx); query, synthesis, query
+    for s_ in P_SYNTH:
+        for q in P_QUERIES:
+            for ops in ([s_, q], [q, s_, q]):
+                f = _first_fail({'kind': 'process', 'shape': [4, 6], 'dx0': 0.37, 'seed': 11, 'config': 'numpy2', 'ops': ops})
+                if f:
+                    return f
     # 6. synthetic surfaces
     for n in (3, 4, 5, 8, 9):
         for fcn, params in (('abc', {'a': 1.0, 'b': 2.0, 'c': 3.0}), ('ab', {'a': 1.0, 'b': 2.0})):
@@ -1905,6 +2098,10 @@ def replay(inp):
         with warnings.catch_warnings(), np.errstate(all='ignore'):
             warnings.simplefilter('ignore')
             pred_history(case, verbose=True)
+    if case['kind'] == 'process':
+        with warnings.catch_warnings(), np.errstate(all='ignore'):
+            warnings.simplefilter('ignore')
+            pred_process(case, verbose=True)
     if case['kind'] == 'psd':
         try:
             h, w, ux, uy, p = _real_psd(case)
@@ -1933,7 +2130,10 @@ MANIFEST_ENTRY = {
              '1-D forms) is monotone under widening, satisfies inclusion-exclusion for closed bands and is additive WHEN THE COMMON EDGE '
              'IS NOT A SAMPLE RADIUS (with closed bands the unrestricted sentence of the property is false on an edge sample: '
              'band_additive_general is the exact statement); these are also stated for P := the model PSD with the per-axis steps '
-             '(band_monotone_psd, band_additive_psd); full band: |sum((hw)^2)/sum(w^2) - brms^2_full| <= weight of the outermost rows/'
+             '(band_monotone_psd, band_additive_psd); the value depends on the band only through which samples it contains (band_congr), so an inverted band '
+             'or a band above every sample radius gives 0 (band_inverted_zero, band_beyond_samples_zero) and every lower edge <= all radii / upper edge >= all '
+             'radii — the defaults 0 and r.max(), negative or infinite edges — gives the same, full-band, value (band_defaults_full, band_upper_default, '
+             'band_lower_default; all exercised on the real code and the model: item band_degenerate); no helper whose returned array interferogram.py writes into in place is memoised (gen_helper_results_not_shared, translated from the decorators of fttools / coordinates and the in-place writes of interferogram.py; item process_history checks the same on the real code); full band: |sum((hw)^2)/sum(w^2) - brms^2_full| <= weight of the outermost rows/'
              'columns for the model PSD with the steps measured from r as the code measures them, for EVERY shape m,n >= 1 (1xN / Nx1: '
              'the code returns 0 and the bound is an equality); rms(z*rho/rms z) = rho over any non-empty valid set. '
              'TRANSLATED from the source on every run (psd(): last-definition dataflow — rebinding, /=, reordering, renaming are '
